@@ -81,7 +81,7 @@ static void run_primes(long &k) {
 	if (ctx.thorough()) jobs.push_back(Job{G_SPRIME, 2048, 2047, 1, (unsigned long)TMCG_MR_ITERATIONS, false});   // one 2048-bit safe prime
 	for (auto &jb : jobs) {
 		long kk = k++;
-		if (!jb.always && thin_out(kk)) continue;
+		if (jb.always ? thin_light(kk) : thin_out(kk)) continue;
 		J d; d.kv("fam", "prime-generator").kv("fn", pr_name[jb.fn]).kv("psize", (long long)jb.ps).kv("qsize", (long long)jb.qs).kv("mr", (long long)jb.mr);
 		if (!case_begin(kk, d.str())) continue;
 		Rng r = case_rng(kk, 1), lib = case_rng(kk, 2); tl_rng = &lib; CaseStat cs;
@@ -207,6 +207,7 @@ static void run_bigint(long &k) {
 	int ncases = ctx.quick() ? 48 : 400; int nops = ctx.quick() ? 220 : 400;
 	for (int c = 0; c < ncases; c++) {
 		long kk = k++;
+		if (thin_light(kk)) continue;
 		J d; d.kv("fam", "bigint-sequence").kv("seq", c);
 		if (!case_begin(kk, d.str())) continue;
 		Rng r = case_rng(kk, 1), lib = case_rng(kk, 2); tl_rng = &lib; CaseStat cs; BS.seqs++;
